@@ -35,7 +35,7 @@ class CaseTimeout(Exception):
 
 
 def _alarm(signum, frame):
-    raise CaseTimeout()
+    raise CaseTimeout("cpu" if signum == signal.SIGPROF else "wall")
 
 
 def _setup(prop, repo):
@@ -111,19 +111,38 @@ def run_one(prop, repo, args, timeout):
                 fail(label, "exception", "%s: %s%s" % (type(exc).__name__, exc, (" [at %s]" % loc) if loc else ""))
             return None
 
-        old = signal.signal(signal.SIGALRM, _alarm)
-        signal.alarm(int(timeout))
+        # The time limit is on the CPU time of this (single threaded) worker (ITIMER_PROF): a paused VM / overloaded machine
+        # must not produce spurious timeouts.  A wall-clock backstop of 3x the limit catches real blocking hangs; if it fires
+        # although hardly any CPU time was used (machine stall), the case is re-run once.
+        old_alrm = signal.signal(signal.SIGALRM, _alarm)
+        old_prof = signal.signal(signal.SIGPROF, _alarm)
         try:
-            with contextlib.redirect_stdout(sys.stderr):  # library chatter must not pollute stdout
-                mod.run_case(args, check)
-        except CaseTimeout:
-            fail(None, "timeout", "case did not finish within %d s" % timeout)
-        except Exception as exc:  # input construction (uses library constructors) or harness error
-            loc = _library_location(exc.__traceback__)
-            fail(None, "setup_exception", "%s: %s%s" % (type(exc).__name__, exc, (" [at %s]" % loc) if loc else ""))
+            for attempt in (1, 2):
+                n_fail, cpu0 = len(failures), time.process_time()
+                rt_common.reset_evaluations()
+                signal.setitimer(signal.ITIMER_PROF, float(timeout))
+                signal.setitimer(signal.ITIMER_REAL, 3.0 * float(timeout))
+                try:
+                    with contextlib.redirect_stdout(sys.stderr):  # library chatter must not pollute stdout
+                        mod.run_case(args, check)
+                except CaseTimeout as to:
+                    signal.setitimer(signal.ITIMER_PROF, 0.0)
+                    signal.setitimer(signal.ITIMER_REAL, 0.0)
+                    cpu = time.process_time() - cpu0
+                    if str(to) == "wall" and cpu < 0.5 * timeout and attempt == 1:
+                        del failures[n_fail:]
+                        continue        # stall of the machine, not of the case: try once more
+                    fail(None, "timeout", "case did not finish within %d s of CPU time / %d s of wall time (%s limit hit, "
+                                          "%.0f s CPU used, attempt %d)" % (timeout, 3 * timeout, to, cpu, attempt))
+                except Exception as exc:  # input construction (uses library constructors) or harness error
+                    loc = _library_location(exc.__traceback__)
+                    fail(None, "setup_exception", "%s: %s%s" % (type(exc).__name__, exc, (" [at %s]" % loc) if loc else ""))
+                break
         finally:
-            signal.alarm(0)
-            signal.signal(signal.SIGALRM, old)
+            signal.setitimer(signal.ITIMER_PROF, 0.0)
+            signal.setitimer(signal.ITIMER_REAL, 0.0)
+            signal.signal(signal.SIGALRM, old_alrm)
+            signal.signal(signal.SIGPROF, old_prof)
         evaluations = rt_common.evaluations()
         ratios = {"%s:%s" % (args.get("op", "?"), k): v for k, v in rt_common.ratios().items()}
     except BaseException as exc:  # pragma: no cover - last line of defence
